@@ -19,6 +19,7 @@ import (
 	"github.com/go-git/go-git/v6/plumbing/format/gitignore"
 	"github.com/go-git/go-git/v6/plumbing/format/index"
 	"github.com/go-git/go-git/v6/plumbing/object"
+	"github.com/go-git/go-git/v6/plumbing/storer"
 	"github.com/go-git/go-git/v6/utils/convert"
 	"github.com/go-git/go-git/v6/utils/ioutil"
 	"github.com/go-git/go-git/v6/utils/merkletrie"
@@ -182,7 +183,10 @@ func (w *Worktree) diffStagingWithWorktree(cfg *config.Config, reverse, excludeI
 	// keeps an excluded parent authoritative, which a flat pattern list
 	// cannot express.
 	if excludeIgnoredChanges {
-		fsOpts.IgnoreScope = w.ignoreScope()
+		fsOpts.IgnoreScope, err = w.ignoreScope()
+		if err != nil {
+			return nil, err
+		}
 	}
 
 	to := filesystem.NewRootNodeWithOptions(w.filesystem, submodules, fsOpts)
@@ -197,15 +201,28 @@ func (w *Worktree) diffStagingWithWorktree(cfg *config.Config, reverse, excludeI
 // .git/info/exclude, the root .gitignore, then any patterns supplied by the
 // caller, in ascending order of priority. Ignore files in subdirectories are
 // read by the walk itself, only where it goes.
-func (w *Worktree) ignoreScope() *gitignore.Scope {
-	// A worktree whose root cannot be listed yields no patterns rather than an
-	// error, as collecting them did before: the walk itself already treats a
-	// missing root as an empty tree, and Status should not start failing for
-	// worktrees it used to report on.
-	patterns, err := gitignore.RootPatterns(w.filesystem)
-	if err != nil {
-		patterns = nil
+func (w *Worktree) ignoreScope() (*gitignore.Scope, error) {
+	// $GIT_DIR/info/exclude is read through the repository's own filesystem:
+	// the worktree filesystem refuses every path inside .git, so asking it
+	// for .git/info/exclude would silently yield nothing.
+	var patterns []gitignore.Pattern
+	if fss, ok := w.r.Storer.(storer.FilesystemStorer); ok {
+		exclude, err := gitignore.InfoExcludePatterns(fss.Filesystem())
+		if err != nil {
+			return nil, err
+		}
+		patterns = exclude
 	}
+
+	// A worktree whose root does not exist has no .gitignore either, which is
+	// not an error: the walk itself treats a missing root as an empty tree. A
+	// .gitignore that is there but cannot be read is one: without its rules
+	// ignored files would be reported as untracked.
+	root, err := gitignore.DirPatterns(w.filesystem, nil)
+	if err != nil {
+		return nil, err
+	}
+	patterns = append(patterns, root...)
 
 	patterns = append(patterns, w.Excludes...)
 
@@ -213,7 +230,7 @@ func (w *Worktree) ignoreScope() *gitignore.Scope {
 	// so a worktree with no .gitignore at the root may well have one further
 	// down; returning nil here would mean never looking.
 
-	return gitignore.NewScope(patterns)
+	return gitignore.NewScope(patterns), nil
 }
 
 func (w *Worktree) getSubmodulesStatus(cfg *config.Config) (map[string]plumbing.Hash, error) {
